@@ -12,7 +12,7 @@ PROP_INVS = {
     "C17": ["C17t_CutIsError", "C17t_NextCallSucceeds", "C17t_NoPanicNoHang", "C06t_NoReuseAfterFailure", "C06t_OwnResponse"],
     "C09": ["C09t_CancelPrompt", "C09t_ContextError", "C06t_ReleaseOnlyAfterComplete", "C06t_NoReuseAfterFailure", "C06t_OwnResponse"],
 }
-MC_INVS = ["TypeOK", "C12_Routing", "C12_Version", "C12_FollowLeader", "C12_CacheFilter", "C06t_OwnResponse",
+MC_INVS = ["TypeOK", "C12_Routing", "C12_Address", "C12_Version", "C12_FollowLeader", "C12_CacheFilter", "C06t_OwnResponse",
            "C06t_ReleaseOnlyAfterComplete", "C06t_NoReuseAfterFailure", "C09t_CancelPrompt"]
 MC_PROPS = ["C12_GrabIsLatest", "C06t_DeadStaysDead"]
 # seeded defects the model must reject (vacuity guards): defect -> (config it is run with, what must fail)
@@ -22,6 +22,7 @@ GUARDS = {
     "clientMax": ("route", {"C12_Version"}),
     "staleCache": ("route", {"C12_GrabIsLatest", "C12_FollowLeader"}),
     "filterAll": ("route", {"C12_CacheFilter"}),
+    "keepGroupOnReaddress": ("addr", {"C12_Address"}),
     "releaseOnFail": ("fault", {"C06t_NoReuseAfterFailure", "C06t_ReleaseOnlyAfterComplete"}),
     "releaseOnCancel": ("fault", {"C06t_ReleaseOnlyAfterComplete", "C06t_OwnResponse"}),
 }
@@ -165,6 +166,8 @@ def c12_scripts(seed, tier):
 
     lp = [("produce", dict(t="t1", p=0)), ("fetch", dict(t="t1", p=0)), ("listoffsets1", dict(t="t1", p=0)), ("listoffsets", {}), ("metadata", {})]
     gp = [("offsetcommit", {}), ("offsetfetch", {}), ("joingroup", {}), ("initproducerid", {}), ("endtxn", {})]
+    # broker 3 leads t2/0 and is the transaction coordinator in the first layout
+    ap = [("produce", dict(t="t2", p=0)), ("fetch", dict(t="t2", p=0)), ("listoffsets1", dict(t="t2", p=0)), ("listoffsets", {}), ("initproducerid", {}), ("metadata", {})]
     fl = [
         ([{"kind": "leader", "t": "t1", "p": 0, "to": 3}], lp, None, (1, 2, 3)),
         ([{"kind": "leader", "t": "t1", "p": 0, "to": 2}, {"kind": "leader", "t": "t2", "p": 1, "to": 2}], lp, None, (1, 2, 3)),
@@ -174,10 +177,20 @@ def c12_scripts(seed, tier):
         ([{"kind": "topiccreate", "t": "t3", "leaders": [3, 2]}], [("produce", dict(t="t3", p=0)), ("fetch", dict(t="t3", p=1)), ("metadata", {})], None, (1, 2, 3)),
         ([{"kind": "coord", "to": 1}, {"kind": "txn", "to": 2}], gp, None, (1, 2, 3)),
         ([{"kind": "ctrlr", "to": 3}], [("createtopics", {}), ("metadata", {})], None, (1, 2, 3)),
+        # a broker re-registers under the same id with another address (the old endpoint stays up): same host, new port
+        ([{"kind": "readdress", "b": 3, "port": 9093}], ap, None, (1, 2, 3)),
+        # new host name
+        ([{"kind": "readdress", "b": 3, "host": "b3x"}], ap, None, (1, 2, 3)),
+        # only the rack changes (nothing has to be re-dialled, everything must keep working)
+        ([{"kind": "readdress", "b": 3, "rack": "r2"}], ap, None, (1, 2, 3)),
+        # the coordinator / a bootstrap broker moves to a new port, twice
+        ([{"kind": "readdress", "b": 2, "port": 9094}, {"kind": "readdress", "b": 2, "port": 9095}], gp + [("produce", dict(t="t1", p=1))], None, (1, 2, 3)),
+        # the broker re-registers under a new id at the same address
+        ([{"kind": "renumber", "b": 3, "to": 4}], ap, None, (1, 2, 3)),
     ]
     for i, (moves, probes, lay, brokers) in enumerate(fl):
         out.append(follow(i, moves, probes, False, lay, brokers))
-        if tier == "thorough" or i in (0, 2, 3):
+        if tier == "thorough" or i in (0, 2, 3, 8):
             out.append(follow(i, moves, probes, True, lay, brokers))
 
     # 4. metadata from the cache against what the brokers answered, across topic creation and deletion
@@ -219,6 +232,7 @@ def random_script(rng, sid, kinds, wide=False):
                  tables=tabs, ttl=rng.choice([60, 80, 100, 150]), idle=rng.choice([30000, 30000, 150]))
     st = []
     alive = set(brokers)
+    nport = [9100]
     moved = False
     for _ in range(rng.randint(3, 6)):
         r = rng.random()
@@ -231,8 +245,11 @@ def random_script(rng, sid, kinds, wide=False):
             m = rng.random()
             if m < 0.5:
                 st.append({"move": {"kind": "leader", "t": rng.choice(["t1", "t2"]), "p": rng.randrange(2), "to": rng.choice(sorted(alive))}})
-            elif m < 0.65:
+            elif m < 0.6:
                 st.append({"move": {"kind": rng.choice(["coord", "txn", "ctrlr"]), "to": rng.choice(sorted(alive))}})
+            elif m < 0.7:
+                nport[0] += 1
+                st.append({"move": {"kind": "readdress", "b": rng.choice(sorted(alive)), "port": nport[0]}})
             elif m < 0.8 and len(alive) < 4:
                 b = max(alive) + 1
                 alive.add(b)
@@ -488,8 +505,9 @@ def write_mc_cfg(d, name, reqs, menu, conns, moves, cancels, cuts, refresh, expi
 
 
 # name -> (reqs, menu, conns, moves, cancels, cuts, refresh, expire, closeidle, vtab, kinds of cluster changes)
-ALLK = "leader add remove topic coord txn ctrlr"
+ALLK = "leader add addr remove topic coord txn ctrlr"
 MC_QUICK = {
+    "addr": ("MC_Reqs2", "MC_MenuQ2", 4, 1, 0, 0, 1, 0, 0, "MC_VTabA", "addr"),
     "one": ("MC_Reqs1", "MC_Menu1", 3, 1, 0, 0, 1, 0, 0, "MC_VTabA", ALLK),
     "route": ("MC_Reqs2", "MC_MenuQ1", 3, 1, 0, 0, 1, 0, 0, "MC_VTabA", "leader"),
     "fault": ("MC_Reqs2", "MC_MenuQ2", 4, 0, 1, 1, 0, 1, 0, "MC_VTabB", ALLK),
@@ -497,6 +515,7 @@ MC_QUICK = {
     "closeidle": ("MC_Reqs2", "MC_MenuQ3", 4, 0, 0, 0, 0, 0, 1, "MC_VTabA", ALLK),
 }
 MC_THOROUGH = {
+    "addr": ("MC_Reqs2", "MC_MenuQ1", 4, 2, 0, 0, 1, 0, 0, "MC_VTabA", "addr leader"),
     "one": ("MC_Reqs1", "MC_Menu1", 3, 2, 0, 0, 1, 0, 0, "MC_VTabB", ALLK),
     "onefault": ("MC_Reqs1", "MC_Menu1", 3, 1, 1, 1, 1, 0, 0, "MC_VTabB", "leader remove coord"),
     "route": ("MC_Reqs2", "MC_MenuQ1", 3, 1, 0, 0, 1, 0, 0, "MC_VTabA", ALLK),
@@ -581,7 +600,7 @@ def run(ctx):
         ctx.notes.append("model checking skipped (VERIF_TRANSPORT_NOMC)")
         cov.update({"states": 0, "transitions": 0})
     else:
-        cov.update(model_check(ctx, ["firstBroker", "clientMax", "staleCache", "filterAll", "groupToController"] if ctx.tier == "quick" else list(GUARDS)))
+        cov.update(model_check(ctx, ["firstBroker", "clientMax", "staleCache", "filterAll", "groupToController", "keepGroupOnReaddress"] if ctx.tier == "quick" else list(GUARDS)))
     if ctx.tier == "thorough" and not os.environ.get("VERIF_TRANSPORT_NOMC"):
         cov.update(liveness(ctx))
     scripts = c12_scripts(ctx.seed, ctx.tier)
